@@ -468,6 +468,8 @@ func runC17(c *Ctx, r *Report) {
 	importRules(c, r, "C08", []string{"R-C08.2", "R-C08.6"}, "R-C17.8")
 	importRules(c, r, "C09", []string{"R-C09.8"}, "R-C17.8")  // whatever Append wrote must load again: the readers refuse only undecodable blocks
 	importRules(c, r, "C18", []string{"R-C18.14"}, "R-C17.8") // …and keep the links the block carries unless they opened sealed ones
+	r.Doc("R-C17.10", "the fetch worker keeps what it fetched (adopted from C09: an entry dropped on load for its content makes a returned head hash load to a log without its history)")
+	importRules(c, r, "C09", []string{"R-C09.15"}, "R-C17.10")
 	r.Doc("R-C17.9", "the codec objects shared by logs that append through one link-sealing codec are concurrency-safe (adopted from C18: a stateful marshaller shared by overlapping appends writes blocks whose sealed links are truncated or belong to another entry, and the returned hash no longer loads)")
 	importRules(c, r, "C18", []string{"R-C18.7"}, "R-C17.9", 0)
 	errDiscipline(c, r, "R-C17.6", func(fn *Fn) bool {
